@@ -178,8 +178,10 @@ impl HdlcDeframer {
                     return Ok(State::Unsynced(0xff));
                 }
                 if bits.len() < 7 {
-                    // Too short, not even zero bytes.
-                    return Ok(State::Unsynced(0xff));
+                    // Too short, not even zero bytes. But six ones followed
+                    // by a zero is a flag all the same (e.g. two flags sharing
+                    // a zero), so stay synced.
+                    return Ok(State::Synced((0, Vec::with_capacity(self.max_size))));
                 }
 
                 // Remove partial flag.
